@@ -479,7 +479,7 @@ def rewrite_derive(attr_text):
 
 SECTION_KW = ("ret", "requires", "ensures", "decreases", "recommends", "entry", "loop", "before", "after",
               "subst", "sigsubst", "attr", "name", "opens", "noprove", "unwind", "mono", "selftype", "ord", "header", "nostructural", "deadtail",
-              "closure", "capture", "cret", "dropclosure", "callargs")
+              "closure", "capture", "cret", "dropclosure", "callargs", "macro", "macroarg")
 
 
 class FnDirective:
@@ -557,7 +557,7 @@ def _sec_line(d, t):
         elif kw in ("before", "after"):
             mm = re.match(r'"((?:[^"\\]|\\.)*)"\s*(.*)$', rest)
             arg, text = mm.group(1).replace('\\"', '"'), mm.group(2)
-        elif kw in ("subst", "sigsubst"):
+        elif kw in ("subst", "sigsubst", "macroarg"):
             mm = re.match(r'"((?:[^"\\]|\\.)*)"\s*=>\s*"((?:[^"\\]|\\.)*)"\s*$', rest)
             if not mm:
                 raise ExtractError("bad subst: " + t)
@@ -846,7 +846,54 @@ def emit_fn(em, d, tmpl_path):
     path, spec = parse_target(d.target)
     if not spec[-1].startswith(("fn ", "impl")) and " " not in spec[-1]:
         spec[-1] = "fn " + spec[-1]
-    src, masked, it = locate(path, spec)
+    mac = d.get("macro")
+    if mac:
+        # E22 (macro instantiation): the single-arm macro_rules! named in `macro "<name>"` is expanded textually with
+        # the bindings `macroarg "$x" => "text"`; an optional group `$( .. )?` is kept (with its variables bound) when
+        # every variable in it is bound, dropped otherwise.  The function inside the expansion is then treated like
+        # any other function of the file.
+        mname = mac[0][1].strip().strip('"')
+        fsrc, fmasked = load(path)
+        mm = re.search(r"macro_rules!\s+%s\s*\{" % re.escape(mname), fmasked)
+        if not mm:
+            raise ExtractError("macro %s not found in %s" % (mname, path))
+        mo = mm.end() - 1
+        me = match_brace(fmasked, mo)
+        arm = re.search(r"=>\s*\{", fmasked[mo:me])
+        if not arm:
+            raise ExtractError("macro %s: no arm body" % mname)
+        ao = mo + arm.end() - 1
+        ae = match_brace(fmasked, ao)
+        if re.search(r"=>\s*\{", fmasked[ae:me]):
+            raise ExtractError("macro %s has more than one arm" % mname)
+        text = fsrc[ao + 1:ae]
+        binds = {}
+        for (a, b) in [(x[1], x[2]) for x in d.sections if x[0] == "macroarg"]:
+            binds[a] = b
+        while True:
+            k = text.find("$(")
+            if k < 0:
+                break
+            pc = match_brace(mask_source(text), k + 1)
+            if not text[pc + 1:pc + 2] == "?":
+                raise ExtractError("macro %s: only optional groups `$( .. )?` are supported" % mname)
+            inner = text[k + 2:pc]
+            vars_ = set(re.findall(r"\$[a-z_][a-z0-9_]*", inner))
+            text = text[:k] + (inner if vars_ and all(v in binds for v in vars_) else "") + text[pc + 2:]
+        for a in sorted(binds, key=len, reverse=True):
+            text = text.replace(a, binds[a])
+        if re.search(r"\$[a-z_(]", mask_source(text)):
+            raise ExtractError("macro %s: unbound metavariable after expansion" % mname)
+        base_line = lineno(fsrc, ao)
+        src, masked = text, mask_source(text)
+        items = [x for x in scan_items(src, masked, 0, len(src)) if x.kind == "fn"]
+        if len(items) != 1:
+            raise ExtractError("macro %s: expansion does not contain exactly one fn" % mname)
+        it = items[0]
+        em.rules.add("E22")
+        path = "%s (macro %s, line %d+)" % (path, mname, base_line)
+    else:
+        src, masked, it = locate(path, spec)
     if it.open < 0:
         raise ExtractError("function has no body: " + d.target)
     clos = d.get("closure")
